@@ -30,6 +30,7 @@ import (
 	"github.com/q191201771/lal/pkg/base"
 	"github.com/q191201771/lal/pkg/httpflv"
 	"github.com/q191201771/lal/pkg/logic"
+	"github.com/q191201771/lal/pkg/remux"
 	"github.com/q191201771/lal/pkg/rtmp"
 	"github.com/q191201771/lal/pkg/rtprtcp"
 	"github.com/q191201771/lal/pkg/rtsp"
@@ -127,6 +128,46 @@ func publisher(r *rand.Rand, url string) {
 			time.Sleep(4 * time.Millisecond)
 		}
 		_ = s.Dispose()
+		sleepMs(r, 10, 200)
+	}
+}
+
+// rtsp publisher: rtmp messages -> Rtmp2RtspRemuxer -> rtsp.PushSession (UDP or interleaved)
+func rtspPublisher(r *rand.Rand, url string) {
+	for alive() {
+		ps := rtsp.NewPushSession(func(o *rtsp.PushSessionOption) { o.PushTimeoutMs = 3000; o.OverTcp = r.Intn(2) == 0 })
+		started := false
+		failed := false
+		remuxer := remux.NewRtmp2RtspRemuxer(
+			func(sdpCtx sdp.LogicContext) {
+				if err := ps.WithSdpLogicContext(sdpCtx).Start(url); err != nil {
+					failed = true
+					return
+				}
+				started = true
+				atomic.AddInt64(&cnt.pub, 1)
+			},
+			func(pkt rtprtcp.RtpPacket) {
+				if started {
+					_ = ps.WriteRtpPacket(pkt)
+				}
+			})
+		remuxer.FeedRtmpMsg(videoMsg(0, true, true))
+		remuxer.FeedRtmpMsg(audioMsg(0, true))
+		ts := uint32(0)
+		stop := time.Now().Add(time.Duration(300+r.Intn(1200)) * time.Millisecond)
+		n := 0
+		for time.Now().Before(stop) && alive() && !failed {
+			remuxer.FeedRtmpMsg(videoMsg(ts, n%10 == 0, false))
+			remuxer.FeedRtmpMsg(audioMsg(ts, false))
+			ts += 40
+			n++
+			time.Sleep(4 * time.Millisecond)
+		}
+		_ = ps.Dispose()
+		if failed {
+			atomic.AddInt64(&cnt.pubFail, 1)
+		}
 		sleepMs(r, 10, 200)
 	}
 }
@@ -397,6 +438,9 @@ func main() {
 	spawn(func(r *rand.Rand) { publisher(r, url("s0")) })
 	spawn(func(r *rand.Rand) { publisher(r, url("s0")) }) // duplicate publisher on the same stream
 	spawn(func(r *rand.Rand) { publisher(r, url("s1")) })
+	spawn(func(r *rand.Rand) { rtspPublisher(r, fmt.Sprintf("rtsp://127.0.0.1:%d/live/r0", rtspPort)) })
+	spawn(func(r *rand.Rand) { subscriber(r, 0, rtmpPort, httpPort, rtspPort, "r0") })
+	spawn(func(r *rand.Rand) { subscriber(r, 3, rtmpPort, httpPort, rtspPort, "r0") })
 	for kind := 0; kind < 5; kind++ {
 		k := kind
 		spawn(func(r *rand.Rand) { subscriber(r, k, rtmpPort, httpPort, rtspPort, "s0") })
@@ -432,6 +476,7 @@ func main() {
 		fmt.Printf("lalrace: STUCK RunLoop did not return within 10s after Dispose\n")
 		os.Exit(3)
 	}
+	dumpLockTrace()
 	fmt.Printf("lalrace: %ds seed=%d publishes=%d (refused %d) subscriptions=%d api_calls=%d kicks=%d rtp_pub=%d customize_pub=%d\n",
 		secs, seed, cnt.pub, cnt.pubFail, cnt.sub, cnt.api, cnt.kick, cnt.rtp, cnt.custom)
 }
